@@ -244,12 +244,24 @@ func eqCallMerge(c *Ctx, a *flAgg) {
 			continue
 		}
 		cells := allocCells(p, res.String())
+		// a whole-struct copy of the left call (merged := *c) gives every field
+		// that is not overwritten afterwards the left call's value
+		wholeLeft := false
+		if w := p.Cells[res.String()]; w != nil {
+			ws := w.String()
+			if ws == "*("+q.l+")" || ws == "*"+q.l {
+				wholeLeft = true
+			}
+		}
 		for i := 0; i < st.NumFields(); i++ {
 			f := st.Field(i).Name()
 			if f == "_" {
 				continue
 			}
 			v := cells[f]
+			if v == nil && wholeLeft {
+				v = &Expr{Op: OpParam, Name: q.l + "." + f}
+			}
 			switch {
 			case f == "Args":
 				ok := v != nil && v.Op == OpCall && v.Fn != nil && shortFn(v.Fn) == "Args.merge" && len(v.Args) == 3 && v.Args[1].String() == "&"+q.l+".Args" && v.Args[2].String() == "&"+q.r+".Args"
